@@ -344,7 +344,7 @@ fn main() {
     let max_b = if args.tier == Tier::Thorough { 4 } else { 3 };
     let max_o = if args.tier == Tier::Thorough { 4 } else { 3 };
     rep.rule = format!(
-        "all bucket lists of length 0..={} over the 9-value f64 pool {:?}; for every list all 7 paths; for every accepted list all observation sequences of length 0..={} over the same pool (which contains every bound). distinct = distinct (bucket-class, accepted?, path, snapshot) outcomes",
+        "all bucket lists of length 0..={} over the 9-value f64 pool {:?}; for every list all 7 paths; for every accepted list all observation sequences of length 0..={} over the same pool (which contains every bound); plus long lists of 8..65 (thorough ..257) increasing bounds holding +0.0 or -0.0, with every pool value, bound and midpoint as an observation. distinct = distinct (bucket-class, accepted?, path, snapshot) outcomes",
         max_b, fl(&POOL), max_o
     );
     rep.bounds = json!({"bucket_list_len": max_b, "observation_len": max_o, "pool": fl(&POOL), "paths": PATHS.iter().map(|p| format!("{:?}", p)).collect::<Vec<_>>()});
@@ -392,6 +392,44 @@ fn main() {
                             format!("buckets {:?} observations {:?} via {:?}: {}", fl(&buckets), fl(&obs), path, detail),
                             replay_doc(&buckets, &obs, path, &detail),
                         );
+                    }
+                }
+            }
+        }
+    }
+    // long bucket lists (sizes around the thresholds at which a search strategy might switch), holding +0.0 or -0.0 as a
+    // bound: every pool value, every bound and every midpoint as a single observation, and all of them in one sequence
+    let sizes: &[usize] = if args.tier == Tier::Thorough { &[7, 8, 15, 16, 17, 31, 32, 33, 63, 64, 65, 130, 257] } else { &[8, 16, 31, 32, 33, 64, 65] };
+    for &n in sizes {
+        for zero in [0.0f64, -0.0] {
+            let buckets: Vec<f64> = (0..n).map(|k| if k == n / 2 { zero } else { k as f64 - (n / 2) as f64 }).collect();
+            lists += 1;
+            accepted += 1;
+            let mut singles: Vec<f64> = POOL.to_vec();
+            for b in &buckets {
+                singles.push(*b);
+                singles.push(*b + 0.5);
+            }
+            singles.push(-0.0);
+            singles.push(0.0);
+            let mut obs_space: Vec<Vec<f64>> = singles.iter().map(|v| vec![*v]).collect();
+            obs_space.push(singles.clone());
+            for obs in &obs_space {
+                for &path in &PATHS {
+                    rep.evaluations += 1;
+                    let mut calls = 0u64;
+                    let r = watchdog::case(|| format!("{} buckets, observations {:?} via {:?}", n, fl(obs), path), || catch(|| run_case(&buckets, obs, path, &mut calls)));
+                    rep.transitions += calls;
+                    let r = match r {
+                        Ok(r) => r,
+                        Err(p) => Some(("panic".to_string(), format!("panicked: {}", p))),
+                    };
+                    match r {
+                        None => rep.outcome(format!("long{}|{}|{:?}|n{}", n, zero.is_sign_negative(), path, obs.len().min(2))),
+                        Some((class, detail)) => {
+                            let sig = format!("{}:long-list:{:?}", class, path);
+                            rep.violation(sig, format!("{} buckets {:?}.. observations {:?} via {:?}: {}", n, fl(&buckets[..4]), fl(&obs[..obs.len().min(6)]), path, detail), replay_doc(&buckets, obs, path, &detail));
+                        }
                     }
                 }
             }
